@@ -120,7 +120,7 @@ type world struct {
 	spCur   int64
 	spValid int64
 	spHist  []pub // newest first
-	monOff  bool  // the case left the property's quantifier (epoch jump, count >= 256)
+	monOff  bool  // the case left the property's quantifier (epoch jump)
 }
 
 func newWorld(fx *fixture, run *hx.Run, wf bool) *world {
@@ -608,7 +608,7 @@ func (w *world) execOp(line string) string {
 			sb.WriteString(" | " + ro.String())
 		}
 		if w.wf && !w.monOff {
-			w.monitor(line, method, arg, res.Halt, rs, ro)
+			w.monitor(line, sig, method, arg, res.Halt, rs, ro)
 		}
 	}
 	w.lastC1, w.lastC2 = ids(rs.c1), ids(rs.c2)
@@ -621,13 +621,17 @@ func (w *world) execOp(line string) string {
 // Specification state: N (count accepted last), cur, hist (maps published by the ticks, newest first) and
 // valid (how many of them the contract still has to know: a tick adds one up to N, a resize to K cuts it to
 // min(valid, K) — "preserves the most recent min(old,new) maps, never resurrects older ones").
-func (w *world) monitor(line, method string, arg *big.Int, halted bool, rs rawState, ro *readObs) {
+func (w *world) monitor(line, sig, method string, arg *big.Int, halted bool, rs rawState, ro *readObs) {
 	v := func(what, detail string) {
 		site := "netmap.newEpoch"
 		if method == "resize" {
 			site = "netmap.updateSnapshotCount"
 		}
 		w.run.Violation("C08", site, what, detail+" after "+line)
+	}
+	// "… leaves the contract able to tick again": the Inner Ring's tick of the next epoch must never FAULT
+	if !halted && method == "tick" && sig == "alpha" && arg.IsInt64() && arg.Int64() == w.spCur+1 {
+		v("cannot-tick", fmt.Sprintf("the Alphabet's newEpoch(%d) FAULTed (accepted count N=%d, %d ticks so far)", w.spCur+1, w.spN, w.spCur))
 	}
 	if halted && method == "tick" {
 		if !arg.IsInt64() || arg.Int64() != w.spCur+1 {
@@ -639,22 +643,25 @@ func (w *world) monitor(line, method string, arg *big.Int, halted bool, rs rawSt
 		if w.spValid < w.spN {
 			w.spValid++
 		}
-		if int64(len(w.spHist)) > 300 {
-			w.spHist = w.spHist[:300]
+		if int64(len(w.spHist)) > 600 {
+			w.spHist = w.spHist[:600]
 		}
 	}
 	if halted && method == "resize" {
-		if !arg.IsInt64() || arg.Int64() > 256 {
-			w.monOff = true // counts > 256 do not fit the one-byte ring index: outside the property's scope
-			return
-		}
-		w.spN = arg.Int64()
+		// every accepted count is inside the property ("any accepted count …"), whatever its size
+		w.spN = clampI64(arg, 1<<62)
 		if w.spValid > w.spN {
 			w.spValid = w.spN
 		}
 		if ro != nil && ro.next != "H" {
-			v("cannot-tick", fmt.Sprintf("count %d was accepted but the next tick (epoch %d) would FAULT", w.spN, w.spCur+1))
+			v("cannot-tick", fmt.Sprintf("count %s was accepted but the next tick (epoch %d) would FAULT", arg, w.spCur+1))
 		}
+	}
+	if ro != nil && ro.next != "H" && method == "tick" {
+		v("cannot-tick", fmt.Sprintf("after epoch %d the next tick would FAULT (accepted count N=%d)", w.spCur, w.spN))
+	}
+	if w.spValid > int64(len(w.spHist)) {
+		return // more maps retained than this monitor remembers (only with counts > 600)
 	}
 	// the structured lists as stored: listNodes(e) reads exactly the keys p‖BE4(e)‖key, so a stored list whose
 	// epoch is outside the retained range is a map that listNodes still answers
@@ -874,18 +881,16 @@ func randomCase(fx *fixture, run *hx.Run, id string, rng *rand.Rand, nops int) {
 			old, id := g.cnt(), g.id()
 			cands := []int64{0, 1, 2, 3, id, id + 1, id + 2, old - 1, old, old + 1, old + 2, old / 2, 2 * old, old + id + 1, old - id,
 				int64(1 + rng.IntN(14)), int64(1 + rng.IntN(14)), int64(1 + rng.IntN(14)), int64(1 + rng.IntN(14)), int64(1 + rng.IntN(40)), -1}
-			if rng.IntN(25) == 0 {
-				cands = []int64{254, 255, 256, 128, 200}
-			}
-			k := hx.Pick(rng, cands)
-			if k > 256 {
-				k = 256
+			ks := fmt.Sprint(hx.Pick(rng, cands))
+			if rng.IntN(12) == 0 {
+				// around the upper guard of the method (one-byte ring index) and far beyond it
+				ks = hx.Pick(rng, []string{"128", "200", "254", "255", "256", "257", "258", "300", "511", "65536", "9223372036854775808"})
 			}
 			sig := "alpha"
 			if rng.IntN(10) == 0 {
 				sig = hx.Pick(rng, sigsBad)
 			}
-			g.emit(fmt.Sprintf("op %s resize %d", sig, k))
+			g.emit(fmt.Sprintf("op %s resize %s", sig, ks))
 		default: // candidate changes, all signer sets
 			i := rng.IntN(nNodes)
 			sig := "alpha"
@@ -901,6 +906,44 @@ func randomCase(fx *fixture, run *hx.Run, id string, rng *rand.Rand, nops int) {
 	}
 	run.Count("case.random")
 	g.sample("random history inside the quantifier")
+}
+
+// bigCountCase: inside the quantifier. The ring position is brought to old-1 (where a grow has nothing to move and
+// therefore cannot FAULT in a move), then a count beyond the one-byte ring index is requested and 262 ticks follow:
+// the count must be refused, or else the contract must go on ticking and answering.
+func bigCountCase(fx *fixture, run *hx.Run, id string, rng *rand.Rand) {
+	w := newWorld(fx, run, true)
+	run.Case(id, "wf")
+	g := &gen{w: w, rng: rng}
+	big := hx.Pick(rng, []string{"257", "300", "511", "9223372036854775808"})
+	switch rng.IntN(3) {
+	case 0: // count 1: the current index is always old-1
+		g.tick()
+		g.emit("op alpha resize 1")
+	case 1: // deployed count, 9 ticks: index 9 = old-1
+		for i := 0; i < 9; i++ {
+			g.tick()
+		}
+	default: // largest legal count first
+		g.emit("op alpha resize 256")
+		g.tick()
+		g.emit("op alpha resize 2") // index 1 = old-1
+	}
+	g.emit("op alpha resize " + big)
+	g.emit("op alpha resize 256")
+	for i := 0; i < 262; i++ {
+		if i%64 == 63 {
+			g.tick()
+		} else {
+			g.emit(fmt.Sprintf("op alpha tick %d q", g.cur()+1))
+		}
+	}
+	g.emit("op alpha resize " + big)
+	g.emit("op alpha resize 5")
+	g.tick()
+	g.tick()
+	run.Count("case.bigcount")
+	g.sample("count beyond the one-byte ring index requested at ring position old-1, then 262 ticks")
 }
 
 // malformedCase: outside the property's quantifier (monitor off, compared with the model only): epoch jumps over
@@ -1045,6 +1088,16 @@ func TestRun(t *testing.T) {
 	fx5 := newFixture(t, 5)
 	for ci := 0; ci < nr; ci++ {
 		randomCase(fx5, run, fmt.Sprintf("s%d.%d.r%d", run.Seed, run.Shard, ci), run.Rand(1000+ci), nops)
+	}
+	nb := 1
+	if run.Tier == "thorough" {
+		nb = 2
+	}
+	if phase == "scope" {
+		nb = 0
+	}
+	for ci := 0; ci < nb; ci++ {
+		bigCountCase(fx5, run, fmt.Sprintf("s%d.%d.b%d", run.Seed, run.Shard, ci), run.Rand(3000+ci))
 	}
 	for ci := 0; ci < nm; ci++ {
 		malformedCase(fx5, run, fmt.Sprintf("s%d.%d.m%d", run.Seed, run.Shard, ci), run.Rand(2000+ci), nops)
